@@ -39,6 +39,13 @@ func (k msgServer) Binding(goCtx context.Context, msg *types.MsgBinding) (*types
 		return nil, types.ErrOutOfDate
 	}
 
+	// the signed message must be the statement that links the account to this very did at this very time,
+	// otherwise a signature given for one did could be reused for another one or with another timestamp
+	if proof.Message != fmt.Sprintf("Link this account to your did: %s\nTimestamp: %d", did, proof.Timestamp) {
+		logger.Error("binding message does not match did and timestamp", "did", did, "message", proof.Message)
+		return nil, types.ErrInvalidBindingProof
+	}
+
 	caip10, err := parseAcccountId(accId)
 	if err != nil {
 		logger.Error("failed to parse accountId!!", "accountId", accId, "did", did, "err", err)
